@@ -3,3 +3,4 @@ pub mod enumerate;
 pub mod der;
 pub mod signer;
 pub mod pki;
+pub mod certref;
